@@ -27,8 +27,11 @@ TOOLS = {
     "glslrun": ("Extract/GlslRunExtract.v", "model", GENERIC),
     "mslrun": ("Extract/MslRunExtract.v", "model", GENERIC),
     "passmodel": ("Extract/PassExtract.v", "model", GENERIC),
+    "inlinemodel": ("Extract/InlineExtract.v", "model", GENERIC),
     "hlslrun": ("Extract/HlslRunExtract.v", "model", GENERIC),
     "spvrun": ("Extract/SpvRunExtract.v", "model", GENERIC),
+    "parsemodel": ("Extract/ParseExtract.v", "model", GENERIC),
+    "cfshape": ("Extract/CfShapeExtract.v", "model", GENERIC),
 }
 
 
